@@ -19,12 +19,9 @@ const (
 // For DNSSEC-signed responses, it also considers RRSIG expiration times.
 func CalculateCacheTTL(msg *dns.Msg, respType ResponseType) time.Duration {
 	// Only cache successful responses and negative responses (NXDOMAIN/NODATA)
-	isNegative := false
 	switch respType {
-	case TypeSuccess:
+	case TypeSuccess, TypeNXDomain, TypeNoRecords:
 		// Continue with TTL calculation
-	case TypeNXDomain, TypeNoRecords:
-		isNegative = true
 	case TypeServerFailure:
 		// SERVFAIL responses should be cached for a reasonable time to avoid
 		// hammering broken servers, but not too long in case it's temporary
@@ -65,11 +62,13 @@ func CalculateCacheTTL(msg *dns.Msg, respType ResponseType) time.Duration {
 		if ttl := getTTL(rr); ttl < minTTL {
 			minTTL = ttl
 		}
-		if isNegative {
-			if soa, ok := rr.(*dns.SOA); ok {
-				if ttl := time.Duration(soa.Minttl) * time.Second; ttl < minTTL {
-					minTTL = ttl
-				}
+		// An SOA in the authority section is what makes a response
+		// negative, whatever it was classified as: an alias whose target
+		// lacks the type comes back as NOERROR with the CNAME in the answer
+		// section, and the denial behind it lives no longer than any other.
+		if soa, ok := rr.(*dns.SOA); ok {
+			if ttl := time.Duration(soa.Minttl) * time.Second; ttl < minTTL {
+				minTTL = ttl
 			}
 		}
 		// Check RRSIG expiration
